@@ -17,6 +17,20 @@ TRUSTED_BASE = [
     "modelled, not verified: libclang, rustc, clang, syn/quote/proc_macro2, regex, cexpr, clap, rustfmt, OS process/pipe semantics",
 ]
 
+def _heal_dev_null():
+    """`rustc -o /dev/null` run as root replaces the device by a regular file, after which every
+    `stdin=DEVNULL` reads garbage.  Recreate the device if that happened (observed once)."""
+    import stat
+    try:
+        if not stat.S_ISCHR(os.stat("/dev/null").st_mode):
+            os.remove("/dev/null")
+            os.mknod("/dev/null", 0o666 | stat.S_IFCHR, os.makedev(1, 3))
+            os.chmod("/dev/null", 0o666)
+    except OSError:
+        pass
+
+
+_heal_dev_null()
 os.makedirs(CACHE, exist_ok=True)
 os.makedirs(EVIDENCE, exist_ok=True)
 os.makedirs(REPLAYS, exist_ok=True)
